@@ -3,7 +3,8 @@ import engine_props
 
 
 def run(chk):
-    engine_props.run_property(chk, "C03", ["C03"])
+    # the witnesses of C03's own open findings run here (classified as KNOWN-FINDING, nothing else is explained by them)
+    engine_props.run_property(chk, "C03", ["C03"], extra_scns=engine_props.open_witnesses("C03"))
 
 
 def replay(chk, path):
